@@ -122,7 +122,24 @@ def _(ctx):
     if n_throw < 4 or n_ok < 1:
         ctx.record('shape', ERROR, 'B', 0, 'expected >= 4 rejecting paths and >= 1 accepting path, got %d/%d' % (n_throw, n_ok))
 
-@obligation('C20.ew_relations', fns=[(SM, 'SM::get_cw'), (SM, 'SM::get_sw'), (SM, 'SM::get_e_mz'), (SM, 'SM::get_gY'), (SM, 'SM::get_g2'), (SM, 'SM::get_v'), (SM, 'SM::get_e_0'), (SM, 'SM::get_g3')])
+def replay_ew(model, wd):
+    """the eight real SM getters at the counterexample's SM input against the documented relations"""
+    from gm2v import fidelity
+    import math
+    f = dict((model or {}).get('_float', {}))
+    vals = {'mw': f.get('mw', 80.379), 'mz': f.get('mz', 91.1876), 'alpha_em_mz': f.get('alpha_em_mz', 1 / 128.9), 'alpha_em_0': f.get('alpha_em_0', 1 / 137.036),
+            'alpha_s_mz': f.get('alpha_s_mz', 0.1184)}
+    names = ['get_cw', 'get_sw', 'get_e_mz', 'get_gY', 'get_g2', 'get_v', 'get_e_0', 'get_g3']
+    out, n = fidelity.native_model_eval(wd, 'SM', vals, ['m.%s()' % g for g in names])
+    V = dict(zip(names, out))
+    mw, mz, al, a0, als = vals['mw'], vals['mz'], vals['alpha_em_mz'], vals['alpha_em_0'], vals['alpha_s_mz']
+    rel = {'cw = MW/MZ': (V['get_cw'], mw / mz), 'sw^2+cw^2 = 1': (V['get_sw']**2 + V['get_cw']**2, 1.0), 'e = g2 sw': (V['get_e_mz'], V['get_g2'] * V['get_sw']),
+           'e = gY cw': (V['get_e_mz'], V['get_gY'] * V['get_cw']), 'e^2 = 4 pi alpha': (V['get_e_mz']**2, 4 * math.pi * al), 'e0^2 = 4 pi alpha0': (V['get_e_0']**2, 4 * math.pi * a0),
+           'g3^2 = 4 pi alpha_s': (V['get_g3']**2, 4 * math.pi * als), 'v = 2 MW/g2': (V['get_v'] * V['get_g2'], 2 * mw)}
+    bad = {k: v for k, v in rel.items() if abs(v[0] - v[1]) > 1e-12 * max(abs(v[0]), abs(v[1]), 1e-300)}
+    return bool(bad), 'real SM getters at mw=%r mz=%r alpha=%r: %s; violated relations: %s' % (mw, mz, al, {k: V[k] for k in names}, bad or 'none')
+
+@obligation('C20.ew_relations', replay=replay_ew, fns=[(SM, 'SM::get_cw'), (SM, 'SM::get_sw'), (SM, 'SM::get_e_mz'), (SM, 'SM::get_gY'), (SM, 'SM::get_g2'), (SM, 'SM::get_v'), (SM, 'SM::get_e_0'), (SM, 'SM::get_g3')])
 def _(ctx):
     """for all 0 < MW < MZ, alpha > 0: cw = MW/MZ, sw^2 + cw^2 = 1, sw > 0, e = g2 sw = gY cw, e^2 = 4 pi alpha, v = 2 MW/g2, g3^2 = 4 pi alpha_s"""
     it = Interp(ctx.w, mode='sym')
